@@ -32,7 +32,7 @@ type DPath struct {
 	Env     *TermEnv
 	EndKind string // return | panic | stop | loop
 	Ret     *ssa.Return
-	Target  *ssa.BasicBlock // for stop/loop
+	Target  *ssa.BasicBlock      // for stop/loop
 	Inl     map[*ssa.Call]*DPath // helper calls replaced by the callee path taken
 }
 
@@ -308,6 +308,9 @@ func (d *DPath) truthAt(iff *ssa.If) bool {
 	for i, pb := range d.Blocks {
 		if pb == b && i+1 < len(d.Blocks) {
 			return d.Blocks[i+1] == b.Succs[0]
+		}
+		if pb == b && i+1 == len(d.Blocks) && d.Target != nil {
+			return d.Target == b.Succs[0]
 		}
 	}
 	return true
